@@ -1183,7 +1183,7 @@ def run(ctx):
                 if name != 'example':
                     # ... and a stratified random session on another one (the tables of the example ledger are too
                     # large to be written next to every statement)
-                    n = record_session(ctx, rec, name, oracle, big, session_order(rng, big, picks, ctx.pick(3, 5)), 'session')
+                    n = record_session(ctx, rec, name, oracle, big, session_order(rng, big, subset, ctx.pick(3, 5)), 'session')
                     nrun += n
                     nsession += n
                 if name == 'example' and not nerr:
